@@ -185,7 +185,9 @@ class C19(framework.PropertyCheck):
                         steps.pop()
                         continue
                 else:
-                    steps.append(('eval', 'eorg', "(sample-at '(" + ' '.join(map(str, L)) + '))'))
+                    # half of the time the trace is named (the two-argument form re-indexes that trace only)
+                    named = ' t0' if (sum(L) + len(L) + case.get('seed', 0)) % 2 else ''
+                    steps.append(('eval', 'eorg', "(sample-at '(" + ' '.join(map(str, L)) + ')' + named + ')'))
                     Lr = L
                 exps.append(('any',))
                 cur = dedup(Lr)
